@@ -229,6 +229,22 @@ def gen(tier, rng):
                                              dst_lay=lay_with_guard(dlay, 1) if dlay else {"k": "image"},
                                              api="typed" if typed else "dyn", cpu=cpu, threads=4 if k % 4 == 0 else 1, log=("dst",), chk=chk, g=g,
                                              sent=sent, mapper=mp[0] if mp else None, direction=mp[1] if mp else None))
+    # two-image alpha operations over long runs of transparent black / saturated / opaque pixels (whole aligned vectors all
+    # zero or all opaque): the destination must be assigned there too
+    for pt in ("U8x2", "U8x4", "U16x2", "U16x4", "F32x2", "F32x4"):
+        for op in ("mul", "div"):
+            for w in (16, 24, 33):
+                for cpu in rz.CPUS:
+                    k += 1
+                    g += 1
+                    content = {"g": "data", "v": rz.runs_pixels(pt, w * 6, random.Random(k), maxrun=30)}
+                    typed = k % 2 == 0
+                    slay, dlay = (TYPED_PAIRS if typed else DYN_PAIRS[:6])[k % 6]
+                    for rep, sent in enumerate((0x2A2A + k, 0x5D5D + 7 * k)):
+                        chk = ["ret_ok", "outside", "srcsame"] + (["memo_exact"] if rep else [])
+                        cases.append(rz.img_case(op, pt, w, 6, src_pt=pt, src_c=content, src_lay=lay_with_guard(slay, 1) if slay else None,
+                                                 dst_lay=lay_with_guard(dlay, 1) if dlay else {"k": "image"}, api="typed" if typed else "dyn", cpu=cpu,
+                                                 log=("dst",), chk=chk, g=g, sent=sent))
     # mismatched pixel types / sizes: documented error, destination untouched
     for (op, spt, dpt, sw, sh, dw, dh) in (("resize", "U8", "U8x4", 4, 4, 2, 2), ("mul", "U8x4", "U8x2", 3, 3, 3, 3), ("div", "U16x2", "U16x2", 3, 3, 3, 2),
                                            ("map", "U8", "U8x3", 3, 3, 3, 3), ("map", "U8", "U8", 3, 3, 2, 3), ("convert", "U8", "U8x3", 3, 3, 3, 3),
